@@ -168,12 +168,48 @@ def lu(prog: Program, rep, x: ExcFlow) -> None:
             st = s.stmt
             if isinstance(st, ast.Assign) and is_self_attr(st.targets[0]) and st.targets[0].attr not in ("mat", "solver", "symmetric"):
                 flag_attr = st.targets[0].attr
-        if set(alts) != {mp, f"{mp}.T"} or flag_attr is None:
+        fl = [s for s in fi.order if isinstance(s.stmt, ast.Assign) and is_self_attr(s.stmt.targets[0], flag_attr)] if flag_attr else []
+        flag_val = fi.resolved(fl[0].stmt, fl[0].stmt.value) if fl else None
+
+        def kind_of(a: ast.AST) -> Optional[str]:
+            """'same' (the given matrix, possibly converted to another storage format) / 'transposed' / None."""
+            t = U(a)
+            if t == mp:
+                return "same"
+            if t in (f"{mp}.T", f"{mp}.transpose()"):
+                return "transposed"
+            if isinstance(a, ast.Call) and isinstance(a.func, ast.Attribute) and a.func.attr in ("tocsc", "tocsr", "tocoo", "copy", "asformat") and kind_of(a.func.value):
+                return kind_of(a.func.value)
+            if isinstance(a, ast.Call) and (dotted(a.func) or "").split(".")[-1] in ("csc_matrix", "csr_matrix", "csc_array") and len(a.args) == 1 and kind_of(a.args[0]):
+                return kind_of(a.args[0])
+            return None
+        alt_nodes = phi_alternatives(arg)
+        if flag_attr is None or flag_val is None or any(kind_of(a) is None for a in alt_nodes):
             raise AnalysisError(f"LUSolver factorises `{alts}`; cannot relate it to the given matrix")
-        # the flag must be the very condition under which the transpose is factorised
-        fl = [s for s in fi.order if isinstance(s.stmt, ast.Assign) and is_self_attr(s.stmt.targets[0], flag_attr)]
-        cond = U(fi.resolved(fl[0].stmt, fl[0].stmt.value)) if fl else None
-        if not (isinstance(arg, ast.IfExp) and U(arg.test) == cond and U(arg.body) == f"{mp}.T" and U(arg.orelse) == mp):
+        cond = U(flag_val)
+        if isinstance(arg, ast.IfExp) and U(arg.test) == cond and U(arg.body) == f"{mp}.T" and U(arg.orelse) == mp:
+            pass   # F = mat.T if <flag> else mat, flag stored as that very condition
+        elif U(arg) in cond:
+            # the flag is computed FROM the factorised object (identity test): evaluate it for every alternative
+            for a in alt_nodes:
+                txt = cond.replace(U(arg), "__F__")
+                try:
+                    e = ast.parse(txt, mode="eval").body
+                except SyntaxError:
+                    raise AnalysisError("LUSolver: cannot evaluate the stored transposition flag")
+
+                def ident(e_):
+                    if isinstance(e_, ast.UnaryOp) and isinstance(e_.op, ast.Not):
+                        return not ident(e_.operand)
+                    if isinstance(e_, ast.Compare) and len(e_.ops) == 1 and isinstance(e_.ops[0], (ast.Is, ast.IsNot)) and {U(e_.left), U(e_.comparators[0])} == {"__F__", mp}:
+                        same_obj = U(a) == mp      # anything but the parameter itself is (possibly) another object
+                        return same_obj if isinstance(e_.ops[0], ast.Is) else not same_obj
+                    raise AnalysisError(f"LUSolver: transposition flag `{cond[:80]}` is not an identity test on the factorised matrix")
+                flag_here = ident(e)
+                rep.check(flag_here == (kind_of(a) == "transposed"), "transposed-factor-flag", init.qualname, short(fl[0].stmt),
+                          f"the stored flag says 'factors belong to the transpose' exactly when the transpose was factorised (alternative `{U(a)}`: flag {flag_here}, "
+                          f"factorised matrix is the {'transpose' if kind_of(a) == 'transposed' else 'matrix itself'})", init.loc(fl[0].stmt))
+        else:
             raise AnalysisError("LUSolver: cannot relate the stored flag to the transposition of the factorised matrix")
     sv = c.methods["solve"]
     fs = facts_for(sv)
